@@ -31,12 +31,14 @@ Definition val_close (m : option Q) (i : impl_val) : bool :=
 
 (* ---- functional trees built through the Functional API ---- *)
 Record tcase := { t_e : @fexpr Q; t_s : @sig Q; t_x : list Q;
+                  t_conj : bool;               (* true: the functional is FunctionalDefaultConvexConjugate(e) *)
                   t_val : impl_val;            (* f(x) *)
                   t_prox : impl_out }.         (* f.proximal(sigma)(x) *)
 
 Definition check_tree (k : tcase) : bool :=
-  val_close (fval (t_e k) (t_x k)) (t_val k)
-  && out_close (fprox (t_e k) (t_s k) (t_x k)) (t_prox k).
+  if t_conj k then out_close (prox_convex_conj (fprox (t_e k)) (t_s k) (t_x k)) (t_prox k)
+  else val_close (fval (t_e k) (t_x k)) (t_val k)
+       && out_close (fprox (t_e k) (t_s k) (t_x k)) (t_prox k).
 
 (* ---- factories called directly (lam, g, step kinds, calculus rules) ---- *)
 Inductive fac :=
@@ -47,6 +49,7 @@ Inductive fac :=
 | KL2Sq (lam : Q) (g : option (list Q))
 | KCCL2Sq (lam : Q) (g : option (list Q))
 | KLinf | KCCLinf
+| KProjSimplex (d : Q) | KProjL1 (r : Q)
 | KBox (lo hi : @bound Q)
 | KConstF
 | KHuber (gamma : Q)
@@ -79,7 +82,13 @@ Fixpoint fac_prox (f : fac) : @factory Q :=
   | KCCL2Sq lam g => fun s x => vec_ok (length x) s (fun sv => Ok (prox_cc_l2sq lam g sv x))
   | KLinf => fun s x => scalar_only s (fun sg => prox_linf sg x)
   | KCCLinf => fun s x => proj_l1 1 x
-  | KBox lo hi => fun s x => Ok (prox_box lo hi x)
+  | KProjSimplex d => fun s x => proj_simplex d x
+  | KProjL1 r => fun s x => proj_l1 r x
+  | KBox lo hi => fun s x =>
+      match lo, hi with
+      | BScal l, BScal h => if Qle_bool l h then Ok (prox_box lo hi x) else Err EValue   (* raised at construction *)
+      | _, _ => Ok (prox_box lo hi x)
+      end
   | KConstF => fun s x => Ok x
   | KHuber gamma => fun s x => scalar_only s (fun sg => Ok (prox_huber gamma sg x))
   | KL1L2 m d lam g => fun s x => scalar_only s (fun sg => Ok (prox_l1_l2 m d lam g sg x))
